@@ -1380,6 +1380,36 @@ class Enumerator:
                 else:
                     yield s, ast.Constant(value=(t != neg)), None
             return
+        if isinstance(v, ast.Call) and isinstance(v.func, ast.Name) and \
+                v.func.id in ('list', 'tuple') and len(v.args) == 1 and \
+                not v.keywords and isinstance(v.args[0], ast.Call):
+            # list(gen(...)) over a generator function of the program: the
+            # accumulating loop it abbreviates
+            acc = ast.Name(id='_lg_acc', ctx=ast.Load())
+            x = ast.Name(id='_lg_x', ctx=ast.Load())
+            loop = ast.For(
+                target=ast.Name(id='_lg_x', ctx=ast.Store()),
+                iter=v.args[0],
+                body=[ast.Expr(value=ast.Call(func=ast.Attribute(
+                    value=acc, attr='append', ctx=ast.Load()), args=[x],
+                    keywords=[]))], orelse=[])
+            for b in ast.walk(loop):
+                if isinstance(b, (ast.stmt, ast.expr)) and not hasattr(
+                        b, 'lineno'):
+                    b.lineno = b.end_lineno = getattr(value, 'lineno', 0)
+                    b.col_offset = b.end_col_offset = 0
+            if self._fusable(loop, v.args[0]) is not None:
+                sym = self.fresh(ast.List(elts=[], ctx=ast.Load()), 'm')
+                s0 = st.fork()
+                s0.env['_lg_acc'] = sym
+                for s, status in self._for(loop, s0, handlers):
+                    s.env.pop('_lg_acc', None)
+                    s.env.pop('_lg_x', None)
+                    if status[0] == 'raise':
+                        yield s, None, status
+                    else:
+                        yield s, sym, None
+                return
         if self.comps:
             dz = _dict_zip_as_comp(v)
             if dz is not None:
@@ -2288,10 +2318,10 @@ class Enumerator:
         own = list(walk_no_nested(g.node))
         if not any(isinstance(n, (ast.Yield, ast.YieldFrom)) for n in own):
             return None
-        if any(isinstance(n, (ast.Try, ast.With)) and any(
+        if any(isinstance(n, ast.With) and any(
                 isinstance(y, (ast.Yield, ast.YieldFrom))
                 for y in ast.walk(n)) for n in own):
-            return None         # the loop body would run inside the try
+            return None         # the loop body would run inside the with
         for n in own:
             # yields must be statements of their own (no value sent back)
             if isinstance(n, ast.Yield):
@@ -2380,6 +2410,8 @@ class Enumerator:
             s.env = dict(s.kstack.pop())
             if status[0] == 'raise':
                 yield s, status
+            elif status[0] == 'xraise':
+                yield s, ('raise',) + tuple(status[1:])
             else:
                 yield s, ('next',)
 
@@ -2405,8 +2437,9 @@ class Enumerator:
                 kd.append(saved)
             for s2, st2 in res:
                 if st2[0] == 'raise':
-                    # unwinds through the generator into the consumer
-                    yield s2, st2
+                    # leaves the consumer's loop; the generator's own
+                    # handlers do not see it (it is merely closed)
+                    yield s2, ('xraise',) + tuple(st2[1:])
                     continue
                 s2.kstack[-1] = s2.env
                 s2.env = dict(callee_env)
